@@ -23,8 +23,21 @@ def model(ctx):
     return wm
 
 
+def _names(sig):
+    out = set()
+    for t in sig:
+        nm = t[2] if t[0] in ("f", "cond", "peek") else (t[1] if t[0] == "var" else None)
+        if isinstance(nm, str):
+            out.add(nm.lstrip("~"))
+    return out
+
+
 def sig_match(got, want):
-    """Compare two signatures; `_` in the reference matches any name.  Returns (ok, index of first difference)."""
+    """Compare two signatures.  `_` in the reference matches any name; a public name must be kept; a private name
+    (`~name`) is soft: it only has to stay in its position while both sides still have a field of that name, so a
+    swap of two same-sized private fields is reported and a private rename is not."""
+    global _GOT_NAMES, _WANT_NAMES
+    _GOT_NAMES, _WANT_NAMES = _names(got), _names(want)
     if len(got) != len(want):
         n = min(len(got), len(want))
         for i in range(n):
@@ -37,13 +50,29 @@ def sig_match(got, want):
     return True, -1
 
 
+_GOT_NAMES = set()
+_WANT_NAMES = set()
+
+
+def _name_ok(g, w):
+    if w == "_":
+        return True
+    if not w.startswith("~"):
+        return g == w  # public field: API name
+    gn, wn = g.lstrip("~"), w[1:]
+    if gn == wn:
+        return True
+    # soft: mismatch only counts when it is a permutation (both names still exist on both sides)
+    return not (gn in _WANT_NAMES and wn in _GOT_NAMES)
+
+
 def _tok_match(g, w):
     if g[0] != w[0]:
         return False
     if g[0] == "f":
         if g[1] != w[1]:
             return False
-        if w[2] != "_" and g[2] != w[2]:
+        if not _name_ok(g[2], w[2]):
             return False
         ge = g[3] if len(g) > 3 else None
         we = w[3] if len(w) > 3 else None
@@ -51,9 +80,9 @@ def _tok_match(g, w):
     if g[0] in ("gap", "magic"):
         return g[1] == w[1]
     if g[0] == "var":
-        return (w[1] == "_" or g[1] == w[1]) and g[2] == w[2]
+        return _name_ok(g[1], w[1]) and g[2] == w[2]
     if g[0] in ("cond", "peek"):
-        return g[1] == w[1] and (w[2] == "_" or g[2] == w[2])
+        return g[1] == w[1] and _name_ok(g[2], w[2])
     return True
 
 
